@@ -46,8 +46,7 @@
 (*   DottedUnqualifiedValue         an unqualified fixed value with a dot whose first element exists below the        *)
 (*                                  parent (the dots could be replaced or read as a relative path): the three path    *)
 (*                                  rules are ignored                                                                 *)
-(*   a limit entry without an application bound below a bounded entry of the same subject (LimitAppsWithin), zero     *)
-(*   quantities, "the queue maximum" of a limit read as the inherited maximum, the children's guaranteed sum against  *)
+(*   zero quantities, "the queue maximum" of a limit read as the inherited maximum, the children's guaranteed sum against  *)
 (*   an inherited maximum, guaranteed sums over grand-children: the weaker reading is specified (configured maximum,  *)
 (*   direct children), the families generate no zero quantities.                                                      *)
 EXTENDS Integers, Sequences, FiniteSets
@@ -94,7 +93,9 @@ KidSum(T, i, t, k) == IF k = 0 THEN 0      \* sum over the children of i of thei
 KidGuar(T, i, t) == KidSum(T, i, t, Len(T))
 AppsWithin(small, big) == big = 0 \/ (small # 0 /\ small <= big)                  \* queues: 0 = not limited ("undefined or zero ... not allowed")
 \* limits: an entry without an application bound (0) below a bounded one is not judged (the messages only say "greater than")
-LimitAppsWithin(small, big) == big = 0 \/ small = 0 \/ small <= big
+\* limits: an entry without an application bound is unbounded, so it is not within a bounded entry of the same subject (all four
+\* branches of checkLimitMaxApplications say so: "... || limitMaxApplications == 0")
+LimitAppsWithin(small, big) == big = 0 \/ (small # 0 /\ small <= big)
 
 -----------------------------------------------------------------------------
 (* limits *)
